@@ -39,3 +39,9 @@ func NewTimer(d Duration) *Timer               { return core.NewTimer(d) }
 func AfterFunc(d Duration, f func()) *Timer    { return core.AfterFunc(d, f) }
 func Unix(sec, nsec int64) Time                { return time.Unix(sec, nsec) }
 func ParseDuration(s string) (Duration, error) { return time.ParseDuration(s) }
+
+func Date(year int, month Month, day, hour, min, sec, nsec int, loc *Location) Time {
+	return time.Date(year, month, day, hour, min, sec, nsec, loc)
+}
+
+// Tick / NewTicker are not supported (periodic timers make the space cyclic).
